@@ -101,6 +101,18 @@ Definition strip_index_path (path : str) : str :=
 
 Inductive nres := NSplit (r : SplitResult) (has_protocol : bool) | NOriginal (s : str).
 
+(* the query stage of normalize_url: the items that survive (per-item unquoting and filtering), then per-item
+   quoting (quoted=True) and sorting (sort_query=True) *)
+Definition kept_query_items (o : n_opts) (df : option (list str)) (query0 : str) : list qitem :=
+  match query0 with
+  | [] => []
+  | _ => filter (fun it => negb (should_strip_query_item o df it)) (safely_unquote_qsl (safe_qsl_iter query0))
+  end.
+
+Definition finish_query_items (o : n_opts) (qsl : list qitem) : list qitem :=
+  let qsl := if n_quoted o then safely_quote_qsl qsl else qsl in
+  if sort_query o then sort_stable qsl_sort_leb qsl else qsl.
+
 (* normalize_url with unsplit=False (plus whether the input had a protocol); NOriginal = returned unchanged *)
 (* everything after the redirection inference; `original` is only what is returned unchanged *)
 Definition normalize_core (e : env) (o : n_opts) (original url : str) : res nres :=
@@ -132,12 +144,7 @@ Definition normalize_core (e : env) (o : n_opts) (original url : str) : res nres
             end in
           let path := if normalize_amp o then re_sub AMP_SUFFIXES_RE_f AMP_SUFFIXES_RE [] path else path in
           let path := if strip_index o then strip_index_path path else path in
-          let qsl :=
-            match query0 with
-            | [] => []
-            | _ => let df := domain_filter_of (hostname sp) in
-                   filter (fun it => negb (should_strip_query_item o df it)) (safely_unquote_qsl (safe_qsl_iter query0))
-            end in
+          let qsl := kept_query_items o (domain_filter_of (hostname sp)) query0 in
           let frag := safely_unquote_fragment (fragment sp) in
           let frag :=
             match frag with
@@ -161,8 +168,7 @@ Definition normalize_core (e : env) (o : n_opts) (original url : str) : res nres
           let user := canon_item (n_quoted o) safely_unquote_auth_item user in
           let pass := canon_item (n_quoted o) safely_unquote_auth_item pass in
           let path := if n_quoted o then safely_quote path else path in
-          let qsl := if n_quoted o then safely_quote_qsl qsl else qsl in
-          let qsl := if sort_query o then sort_stable qsl_sort_leb qsl else qsl in
+          let qsl := finish_query_items o qsl in
           let frag := if n_quoted o then safely_quote frag else frag in
           Ok (NSplit {| scheme := sch; netloc := lower (unsplit_netloc user pass host prt); path := path;
                         query := safe_serialize_qsl qsl; fragment := frag |} has_proto)
